@@ -7,7 +7,7 @@ PROPS["C10"] = {
     "files": ["types/part_set.go", "crypto/merkle/proof.go", "crypto/merkle/tree.go", "crypto/merkle/hash.go"],
     "groups": [
         {"dir": "crypto/merkle",
-         "quick": ["VP_C10_Sound_n1", "VP_C10_Sound_n2", "VP_C10_Sound_n3", "VP_C10_Sound_n4", "VP_C10_Sound_n5",
+         "quick": ["VP_C10_SoundPath_n2", "VP_C10_SoundPath_n3", "VP_C10_Sound_n1", "VP_C10_Sound_n2", "VP_C10_Sound_n3", "VP_C10_Sound_n4", "VP_C10_Sound_n5",
                    "VP_C10_Genuine_n1", "VP_C10_Genuine_n2", "VP_C10_Genuine_n3", "VP_C10_Genuine_n4"],
          "thorough": ["VP_C10_Sound_n6", "VP_C10_Sound_n7", "VP_C10_Sound_n8", "VP_C10_Genuine_n5",
                       "VP_C10_SoundSymTotal_n2", "VP_C10_SoundSymTotal_n3", "VP_C10_Sound2_n3"]},
@@ -32,7 +32,7 @@ PROPS["C07"] = {
     "files": ["types/validator_set.go", "types/block.go", "types/vote.go", "types/canonical.go", "libs/math/fraction.go"],
     "groups": [
         {"dir": "types",
-         "quick": ["VP_C07_Verify_n1", "VP_C07_Verify_n2", "VP_C07_Verify_n2_extra", "VP_C07_Trusting_n1_m1", "VP_C07_Trusting_n2_m1",
+         "quick": ["VP_C07_NilVotesCommitNothing", "VP_C07_Verify_n1", "VP_C07_Verify_n2", "VP_C07_Verify_n2_extra", "VP_C07_Trusting_n1_m1", "VP_C07_Trusting_n2_m1",
                    "VP_C07_TrustLevelGuards", "VP_C07_SignBytesInjective_small", "VP_C07_Repeat_n2_m2", "VP_C07_Repeat_n3_m2"],
          "thorough": ["VP_C07_Verify_n3", "VP_C07_Repeat_n4_m3", "VP_C07_Trusting_n2_m2", "VP_C07_Trusting_n3_m2", "VP_C07_SignBytesInjective_full"]},
     ],
